@@ -181,8 +181,49 @@ pub struct Heart {
 }
 
 static HEARTS: Mutex<Vec<Arc<Heart>>> = Mutex::new(Vec::new());
+/// index and poll limit of the configuration being explored (for the replay file of an aborted run)
+pub static CUR_CFG_INDEX: std::sync::atomic::AtomicUsize = std::sync::atomic::AtomicUsize::new(0);
+pub static CUR_MAX_POLLS: AtomicU64 = AtomicU64::new(20_000);
 /// Called by the watchdog with (execution record so far, configuration, livelock-is-violation); must not return.
-pub static HANG_HANDLER: Mutex<Option<Box<dyn Fn(&ExecRecord, &str, bool) + Send>>> = Mutex::new(None);
+/// The first argument names what happened: "poll-never-returns" (watchdog) or "process-abort" (SIGABRT while an
+/// execution was running: the library panicked again while unwinding from a panic).
+pub static HANG_HANDLER: Mutex<Option<Box<dyn Fn(&str, &ExecRecord, &str, bool) + Send>>> = Mutex::new(None);
+
+/// SIGABRT while an execution is running on this thread. The Rust runtime aborts the process when a destructor
+/// panics during the unwinding of another panic - in library code that is what a user's process would do as well,
+/// so it is a verdict ("nothing panics"), reported with the schedule of the execution that was running. A first
+/// panic outside the library's sources makes it a machinery error instead.
+extern "C" fn on_abort(_sig: libc::c_int) {
+    unsafe { libc::signal(libc::SIGABRT, libc::SIG_DFL) };
+    let in_exec = IN_EXEC.try_with(|c| c.get()).unwrap_or(false);
+    if in_exec {
+        let info = HEART.try_with(|h| h.exec.try_lock().ok().and_then(|g| g.clone())).ok().flatten();
+        if let Some((rec, cfg, _)) = info {
+            let r = match rec.try_lock() {
+                Ok(g) => g.clone(),
+                Err(std::sync::TryLockError::Poisoned(p)) => p.into_inner().clone(),
+                Err(_) => ExecRecord::default(),
+            };
+            let first = r.panic.clone().unwrap_or_default();
+            let in_library = first.contains("/repo/src/") || first.starts_with("src/");
+            if let Ok(g) = HANG_HANDLER.try_lock() {
+                if let Some(f) = g.as_ref() {
+                    f("process-abort", &r, &cfg, in_library);
+                }
+            }
+            if in_library {
+                // (no handler installed: `mc replay` / `mc trace` of a recorded schedule)
+                println!("VIOLATION reproduced: clause=process-abort - the library panicked ({first}) and panicked again while unwinding; events so far {:?}", r.labels);
+                use std::io::Write;
+                let _ = std::io::stdout().flush();
+                unsafe { libc::_exit(1) };
+            }
+            eprintln!("MACHINERY ERROR: the process aborted while an execution was running (first panic: {first}); cfg {cfg}; events so far {:?}", r.labels);
+            unsafe { libc::_exit(2) };
+        }
+    }
+    unsafe { libc::abort() };
+}
 /// executions completed in this process (for the evidence of an aborted run)
 pub static EXECS_DONE: AtomicU64 = AtomicU64::new(0);
 
@@ -261,7 +302,7 @@ fn watchdog() {
                 if let Some((rec, cfg, is_viol)) = info {
                     let r = rec.lock().map(|r| r.clone()).unwrap_or_default();
                     if let Some(f) = HANG_HANDLER.lock().unwrap().as_ref() {
-                        f(&r, &cfg, is_viol);
+                        f("poll-never-returns", &r, &cfg, is_viol);
                     }
                     eprintln!("MACHINERY ERROR: an execution stopped making progress for {} s (a task poll does not return); cfg {cfg}; events so far {:?}", hang_secs(), r.labels);
                     std::process::exit(2);
@@ -274,6 +315,9 @@ fn watchdog() {
 fn global_init() {
     INIT.call_once(|| {
         let _ = std::thread::Builder::new().name("watchdog".into()).spawn(watchdog);
+        unsafe {
+            libc::signal(libc::SIGABRT, on_abort as extern "C" fn(libc::c_int) as libc::sighandler_t);
+        }
         unsafe {
             ntex_rt::task_callbacks(
                 || {
